@@ -83,6 +83,11 @@ namespace
       for (double y : {-3.5, -2.0, 0.0, 1.0, 2.2, 3.5, -1.25})
         for (double d : {1e4, 5e4, 1.5e5, 2e5, 3e5})
           v.push_back({x*s, y*s, d, false});
+    if (!area_only)
+      // a dense patch over the plume between its cross sections: the orientation of its elliptical section is interpolated there (0.3 -> 0.9 -> 0.8 eccentricity in the second base world)
+      for (double x = -3.7; x < -0.6; x += 0.2) for (double y = 1.0; y < 3.7; y += 0.2)
+          for (double d : {1.3e5, 1.7e5, 2.3e5, 2.7e5, 3.3e5, 3.7e5})
+            v.push_back({x*s, y*s, d, false});
     if (long_traces)
       {
         // along the four traces (straight between the coordinates; the curve through them stays within the half thickness), shallow enough to be inside
@@ -108,6 +113,8 @@ namespace
   bool same_class(const std::vector<double> &a, const std::vector<double> &b)
   {
     for (size_t k = 1; k <= 5; ++k) if (a[k] != b[k]) return false;
+    // the grains as well (a layer covered by a plate still shows in the grains of its own composition); within a slab or fault the rotation matrices vary in the last bits
+    for (size_t k = 6; k < a.size() && k < b.size(); ++k) if (!(std::fabs(a[k] - b[k]) <= 1e-9)) return false;
     // a jump of the temperature (e.g. across the prolongation of a transform fault between two ridge segments) is a boundary as well
     if (!(std::fabs(a[0] - b[0]) <= 1e-4 * std::max(1.0, std::fabs(a[0])))) return false;
     return true;
